@@ -69,10 +69,17 @@ theorem no_escape_full_false : ¬ no_escape_full := by
 
 /-! ### "the client gets status 500 if no status had been sent yet" (else the earlier status stands) -/
 
+/-- the documented values of the two constants the model reads from recovery.go (Gen/ConstFacts):
+    the status is 500, the plain body is the 21 bytes of "Internal Server Error".  The theorems
+    below that say "500" go through `recoveryStatus_eq`, so a changed literal in recovery.go
+    breaks them by name at build time (Proofs/Chain holds for any non-zero status). -/
+theorem recoveryStatus_eq : recoveryStatus = 500 := rfl
+theorem recoveryPlainLen_eq : recoveryPlainLen = 21 := rfl
+
 /-- Recovery caught a panic while nothing had been sent: the response status is 500. -/
 theorem status_500_if_unwritten (c : Cfg) (hb : c.onceBug = false) (hc : c.codesOK (fun code => 100 ≤ code))
     (r j : Nat) (h : Ev.recovered r j 0 ∈ (serve c).trace) : (serve c).w.status = 500 := by
-  simpa [finStatus] using (serve_mono c hb hc r j 0 h).1
+  simpa [finStatus, recoveryStatus_eq] using (serve_mono c hb hc r j 0 h).1
 
 /-- Recovery caught a panic after status `s` had been sent: `s` stands. -/
 theorem earlier_status_stands (c : Cfg) (hb : c.onceBug = false) (hc : c.codesOK (fun code => 100 ≤ code))
@@ -91,10 +98,10 @@ theorem recovery_frame_status (c : Cfg) (hb : c.onceBug = false) (runF : St → 
   rw [invoke_rec_caught hr hw2]
   refine ⟨?_, by simp [St.ev], by simp [St.ev, recTok], rfl⟩
   simp only [St.ev_w]
-  generalize (if c.dev = true then c.detailLen else 21) = len
+  generalize (if c.dev = true then c.detailLen else recoveryPlainLen) = len
   by_cases h0 : s1.w.status = 0
-  · have e500 : (s1.w.writeHeader 500).status = 500 := wh_fresh _ _ hw h0
-    rw [write_sticky _ _ _ (by rw [e500]; decide), e500]; simp [finStatus, h0]
+  · have e500 : (s1.w.writeHeader recoveryStatus).status = recoveryStatus := wh_fresh _ _ hw h0
+    rw [write_sticky _ _ _ (by rw [e500]; exact recoveryStatus_ne), e500]; simp [finStatus, h0]
   · rw [write_sticky _ _ _ (by rw [wh_sticky _ _ h0]; exact h0), wh_sticky _ _ h0]; simp [finStatus, h0]
 
 /-! ### "panic detail appears in the body only in development mode" -/
